@@ -242,6 +242,12 @@ func (g *Gen) genC11(n int) error {
 	}
 	for i := 0; i < n; i++ {
 		g.emit("note case %d", i)
+		if i == 2 {
+			// several doc-value and posting chunks, two private visit states interleaved
+			g.bigFrozenCase(1026)
+			g.st("case")
+			continue
+		}
 		g.setMode()
 		cfg := g.defaultCfg()
 		cfg.syn = g.chance(0.5)
@@ -570,6 +576,33 @@ func (g *Gen) genC20(n int) error {
 		g.emit("ref close %s", o)
 		g.emit("ref mapped %s", o)
 	}
+	// opened segments as inputs of a merge: the merge neither keeps nor drops a reference of its inputs
+	fcopy := g.fresh("f") // a second file with the same content (mappings are counted per path)
+	g.emit("persist %s %s", s, fcopy)
+	for c := 0; c < g.tierN(3, 10); c++ {
+		g.emit("note case merge%d", c)
+		g.emit("cfg chunkmode=1026")
+		o1, o2, o3 := g.fresh("o"), g.fresh("o"), g.fresh("o")
+		g.emit("open %s %s", o1, f)
+		g.alias(o1, s)
+		g.emit("open %s %s", o2, fcopy)
+		g.alias(o2, s)
+		g.emit("open %s %s", o3, fe)
+		g.alias(o3, se)
+		g.emit("ref addref %s", o2)
+		g.emit("merge %s segs=%s drops=%s", g.fresh("mf"), strList([]string{o1, o2, o3, s}[:2+g.r.Intn(3)]), "nil|nil|nil|nil")
+		for _, o := range []string{o1, o2, o3} {
+			g.emit("ref refs %s", o)
+			g.emit("ref mapped %s", o)
+			g.emit("q count %s", o)
+		}
+		g.emit("ref decref %s", o2)
+		for _, o := range []string{o1, o2, o3} {
+			g.emit("ref close %s", o)
+			g.emit("ref mapped %s", o)
+		}
+	}
+	g.emit("cfg chunkmode=%d", g.curMode)
 	// the last references dropped by several goroutines at the same moment
 	for c := 0; c < g.tierN(40, 400); c++ {
 		g.emit("note case last%d", c)
